@@ -188,6 +188,29 @@ func (s *Solver) Check() SatResult {
 	res := Unknown
 	sawErr := false
 	got := false
+	// watchdog: z3's own :timeout is not honoured inside some tactics
+	proc := s.cmd.Process
+	timedOut := false
+	timer := time.AfterFunc(time.Duration(s.timeoutMS)*time.Millisecond*3/2+2*time.Second, func() {
+		timedOut = true
+		proc.Kill()
+	})
+	defer timer.Stop()
+	defer func() {
+		if r := recover(); r != nil {
+			if timedOut {
+				s.Queries++
+				s.NUnknown++
+				s.Time += time.Since(t0)
+				s.cmd.Wait()
+				s.cmd = nil
+				s.restarts++
+				s.start()
+				panic(pathEnd{status: StUnknown, msg: "solver killed after timeout"})
+			}
+			panic(r)
+		}
+	}()
 	for {
 		line := s.readLine()
 		if line == "@@done" || line == "\"@@done\"" {
@@ -219,8 +242,13 @@ func (s *Solver) Check() SatResult {
 		s.NUnknown++
 	}
 	s.Time += time.Since(t0)
+	if debugQueries {
+		fmt.Fprintf(os.Stderr, "query %d: %s %.2fs\n", s.Queries, res, time.Since(t0).Seconds())
+	}
 	return res
 }
+
+var debugQueries = os.Getenv("SYMGO_QTRACE") != ""
 
 // CheckWith checks the current frame plus the extra assertions.
 func (s *Solver) CheckWith(extra ...*Term) SatResult {
